@@ -115,8 +115,18 @@ def gen_cases(rng, tier):
         sps = [gen_sp_entity(rng, k) for k in range(rng.randint(1, 3))]
         idps = [gen_idp_entity(rng, k) for k in range(rng.randint(1, 3))]
         all_acs = [ep[1] for e in sps for ep in e["spsso"]["acs"]]
+        # transport of back-channel logout under every transport configuration
+        for ent in idps:
+            if any(ep[0] == S.BINDING_SOAP for ep in ent["idpsso"]["slo"]):
+                for http_cfg in ({}, {"verify_ssl_cert": True}, {"ca_certs": S.cert_path("idp_sign")},
+                                 {"verify_ssl_cert": True, "ca_certs": S.cert_path("idp_sign")},
+                                 {"verify_ssl_cert": True, "ca_certs": S.cert_path("idp_sign"), "key_file": S.key_path("sp"),
+                                  "cert_file": S.cert_path("sp")},
+                                 {"http_client_timeout": 5}):
+                    yield {"op": "slo_transport", "md": {"idps": idps, "pref": pref_cfg}, "entity": ent["entity_id"],
+                           "eps": eps_of(ent, "idpsso", "slo"), "http_cfg": http_cfg}
         for _ in range(per):
-            kind = rng.choice(["pick", "pick", "pick", "pick_slo", "sso", "slo", "slo_multi", "verify_return", "verify_return"])
+            kind = rng.choice(["pick", "pick", "pick", "pick_slo", "sso", "negotiate", "slo", "slo_multi", "verify_return", "verify_return"])
             if kind == "pick":
                 unknown = rng.random() < 0.08
                 ent = rng.choice(sps)
@@ -162,6 +172,14 @@ def gen_cases(rng, tier):
                        "eps": None if unknown else eps_of(ent, "idpsso", "sso"),
                        "binding": rng.choice([S.BINDING_POST, S.BINDING_REDIRECT, S.BINDING_ARTIFACT, "urn:bogus"]),
                        "via": rng.choice(["_sso_location", "prepare_for_authenticate"])}
+            elif kind == "negotiate":
+                unknown = rng.random() < 0.1
+                ent = rng.choice(idps)
+                b = rng.choice([None, None, None, S.BINDING_POST, S.BINDING_REDIRECT, S.BINDING_ARTIFACT])
+                yield {"op": "negotiate", "md": {"idps": idps},
+                       "entity": "https://unknown.c08.example/idp" if unknown else ent["entity_id"],
+                       "eps": None if unknown else eps_of(ent, "idpsso", "sso"), "binding": b,
+                       "to_try": [b] if b else [S.BINDING_REDIRECT, S.BINDING_POST]}
             elif kind == "slo":
                 ent = rng.choice(idps)
                 c = rng.randrange(5)
@@ -262,6 +280,47 @@ def run_impl(case):
         except Exception:
             return {"dest": None}
         return {"dest": d}
+    if op == "negotiate":
+        sp = _sp(case["md"])
+        try:
+            with S.clock(S.NOW0):
+                rid, b, info = sp.prepare_for_negotiated_authenticate(case["entity"], binding=case["binding"], sign=False)
+            d = _dest_of(info, b)
+        except Exception:
+            return {"r": "refused"}
+        return {"r": "ok", "binding": b, "dest": d}
+    if op == "slo_transport":
+        # back-channel (SOAP) logout is the one case in which the library itself transmits: observe the HTTP call it makes
+        # (URL and whether redirects would be followed) for several transport configurations
+        import saml2.httpbase as HB
+
+        extra = dict(case.get("http_cfg") or {})
+        if case["md"].get("pref"):
+            extra["preferred_binding"] = case["md"]["pref"]
+        sp = S.make_sp(S.sp_config(idp_entities=case["md"]["idps"], **extra))
+        calls = []
+
+        class _Resp:
+            status_code = 307
+            text = ""
+            headers = {"location": "https://collector.evil.example/collect"}
+            cookies = []
+
+        def fake_request(method, url, **kw):
+            calls.append({"url": url, "follow": kw.get("allow_redirects", True) is not False})
+            return _Resp()
+
+        orig = HB.requests.request
+        HB.requests.request = fake_request
+        nid = saml.NameID(text="subject-1", format=saml.NAMEID_FORMAT_TRANSIENT)
+        try:
+            with S.clock(S.NOW0):
+                sp.do_logout(nid, [case["entity"]], "r", S.fmt_time(S.NOW0 + 600), sign=False, expected_binding=S.BINDING_SOAP)
+        except Exception:
+            pass
+        finally:
+            HB.requests.request = orig
+        return {"r": "done", "calls": calls}
     if op == "slo":
         sp = _sp(case["md"])
         sent = []
@@ -339,6 +398,8 @@ def _dest_of(info, binding):
 
 
 def compare(case, impl, model):
+    if case["op"] == "slo_transport":
+        return True  # no model outcome to compare: the Lean spec is evaluated on what the library transmitted
     return impl == model
 
 
